@@ -3,4 +3,7 @@
 # offline wheelhouse if a fresh restore lacks it). Nothing is built; the checks import cobra from /repo/src.
 /venv/bin/python -c "import hypothesis" 2>/dev/null || \
   /venv/bin/pip install --no-index --find-links /opt/veriftools/wheels hypothesis
+# optional secondary engine (coverage-guided campaigns of C08/C15 in the thorough tier); skipped gracefully if absent
+PYTHONPATH=/verif/.deps /venv/bin/python -c "import atheris" 2>/dev/null || \
+  /venv/bin/pip install -q --no-index --find-links /opt/veriftools/wheels --target /verif/.deps atheris >/dev/null 2>&1 || true
 /venv/bin/python -c "import hypothesis, sys; sys.path.insert(0, '/repo/src'); import cobra; print('setup ok: hypothesis', hypothesis.__version__, 'cobra', cobra.__version__)"
